@@ -25,6 +25,9 @@ open Proto Ex
                                               dots and repeated separators, absolute; `@T@` is the sandbox's name) and the
                                               working directory of the process (`cw`, relative to the sandbox): the root
                                               is `Ex.absPath` of the two (area dstform)
+      `cg:1`                                  the working directory is gone (the process stands in a directory that was
+                                              removed: `os.Getwd` fails): a relative `dd` is an error before anything
+                                              happens, an absolute one works (`Ex.absPath?`; only with `ExtractWithMask`)
       `cf:<rel>`                              close fault: `close` of the file extracted at `dst/<rel>` fails (area
                                               closefault: the payload is complete, the entry still is an error)
       `r:2`                                   the archive is extracted twice into the same destination (`ok,err` …)
@@ -34,7 +37,8 @@ open Proto Ex
           tar k = r d s l o (other type flag) x (unreadable header); zip k = f d s
           present < len: tar = the stream ends after `present` payload bytes, zip = first payload byte flipped (CRC error);
           zip symlink: present = 0 means the payload (= the target) is corrupt
-    The destination is `T/dst`.  Output: `ok|err` and the whole tree below `T`, sorted by path. -/
+    The destination is `T/dst`.  Output: `ok|err` and the whole tree below `T`, sorted by path.
+    A line `guard 0 <i: items>* gr:<root> gp:<path>` calls the guard alone (see `guardLine`). -/
 
 def tmpC : Comp := [116, 109, 112]
 def tC : Comp := [64, 84, 64]
@@ -170,9 +174,34 @@ def dump (fs : FS) : String :=
       | none => bytesHex t ++ ":f:?"
   " ".intercalate items
 
+/-- area guard: `guard 0 <i: items>* gr:<root> gp:<path>` — the sandbox, then `internal.EnsureNoSymlinks(T/root, T/path)`
+    alone (`Ex.ensureNoSymlinksR`, any pair of clean absolute paths); output `ok|err` and the (unchanged) tree -/
+def guardLine (items : List String) : String :=
+  let argOf (pre : String) : Option (List Nat) :=
+    match (items.filter (·.startsWith pre)).getLast? with
+    | some w => hexBytes? (w.drop pre.length).toString
+    | none => none
+  match argOf "gr:", argOf "gp:" with
+  | some gr, some gp =>
+    let inits := items.filter (fun w => !w.startsWith "gr:" && !w.startsWith "gp:")
+    let rec go (fs : FS) : List String → Option FS
+      | [] => some fs
+      | w :: ws =>
+        let f := w.splitOn ":"
+        match f with
+        | "i" :: _ => (match applyInit false 0 fs f with | some fs' => go fs' ws | none => none)
+        | _ => none
+    match go fs0 inits with
+    | none => "bad-op"
+    | some fs =>
+      let ok := ensureNoSymlinksR fs (sandbox ++ relPath gr) (sandbox ++ relPath gp)
+      (if ok then "ok" else "err") ++ (let d := dump fs; if d.isEmpty then "" else " " ++ d)
+  | _, _ => "bad-op"
+
 def step (_ : Unit) (line : String) : Unit × String :=
   let out :=
     match words line with
+    | "guard" :: _ :: items => guardLine items
     | fmt :: mask :: items =>
       if fmt != "tar" && fmt != "zip" then "bad-op" else
       match octNat? mask with
@@ -192,9 +221,12 @@ def step (_ : Unit) (line : String) : Unit × String :=
         let dd := argOf "dd:"
         let cw := (argOf "cw:").getD []
         let cf := argOf "cf:"
+        let gone := items.contains "cg:1"
+        let cwdOpt : Option P := if gone then none else some (sandbox ++ relPath cw)
         let items := items.filter (fun w => !w.startsWith "v:" && !w.startsWith "r:" && !w.startsWith "dl:" && !w.startsWith "dp:"
-          && !w.startsWith "dd:" && !w.startsWith "cw:" && !w.startsWith "cf:")
+          && !w.startsWith "dd:" && !w.startsWith "cw:" && !w.startsWith "cf:" && !w.startsWith "cg:")
         if !["v:", "v:x", "v:a", "v:am", "v:missing", "v:cut"].contains via then "bad-op" else
+        if gone && (via != "v:" || dd.isNone) then "bad-op" else
         let rec go (fs : FS) (es : List Entry) (lim : Option Nat) : List String → Option (FS × List Entry × Option Nat)
           | [] => some (fs, es.reverse, lim)
           | w :: ws =>
@@ -235,7 +267,7 @@ def step (_ : Unit) (line : String) : Unit × String :=
           let dstRoot := if dp ≥ 1 then pP ++ [bytes "dst"] else dstRoot
           -- the destination as spelled, from the working directory T/<cw>: `filepath.Abs`
           let dstRoot := match dd with
-            | some d => absPath (sandbox ++ relPath cw) d
+            | some d => (absPath? cwdOpt d).getD []
             | none => dstRoot
           -- close fault: every regular-file entry that is written to that path reports an error after its payload
           let es := match cf with
@@ -258,8 +290,12 @@ def step (_ : Unit) (line : String) : Unit × String :=
             | "v:a", true => zipExtractArchiveR true fs dstRoot es
             | "v:am", false => tarExtractArchiveWithMaskR true fs dstRoot mk es
             | "v:am", true => zipExtractArchiveWithMaskR true fs dstRoot mk es
-            | "v:", false => tarExtractR fs dstRoot mk es
-            | "v:", true => zipExtractR fs dstRoot mk es
+            | "v:", false => (match dd with
+                | some d => tarExtractWithMaskFrom fs cwdOpt d mk es   -- `filepath.Abs` inside
+                | none => tarExtractR fs dstRoot mk es)
+            | "v:", true => (match dd with
+                | some d => zipExtractWithMaskFrom fs cwdOpt d mk es
+                | none => zipExtractR fs dstRoot mk es)
             | _, false => if mk == 0 then tarExtractArchiveR opened fs dstRoot es else tarExtractArchiveWithMaskR opened fs dstRoot mk es
             | _, true => if mk == 0 then zipExtractArchiveR opened fs dstRoot es else zipExtractArchiveWithMaskR opened fs dstRoot mk es
           let word (b : Bool) := if b then "ok" else "err"
